@@ -9,6 +9,7 @@ RULE = ("family tls: a Server with a TLS configuration listening on the loopback
         "clients (write + close at once) through a relay that coalesces the end of the handshake, the request and the close into one segment; "
         "incomplete TLS configurations (chain without key, unloadable key, protocol only); overlapping connections (2-4 clients connect first, then complete the handshake or send clear text and reset, in every order); non-trivial = distinct case")
 ASSUMPTIONS = ["the TLS engine is OpenSSL behind QSslSocket", "certificate verification is off in the harness client (the test key pair is self-signed)"]
+CASE_TIMEOUT = 100      # the long-lived connection case pauses for 11 s (31 s in the thorough tier), twice
 TRUSTED = ["real loopback TCP and real timing; bounded waits in the harness", "judged by the extracted spec checker only (no model run: the engine is a parameter of the model)"]
 
 
@@ -72,3 +73,6 @@ def cases(tier, seed, ctx=None):
             for action in (0, 1, 2):
                 yield ("tls", [0, [0, data, -1, -1], action, cfg], "incomplete-config")
         yield ("tls", [0, [1, b"", -1, -1], 2, cfg], "incomplete-config")
+    # a connection that simply lives long (the client pauses in the middle of the body): served like over plain TCP
+    slow = b"POST /slow HTTP/1.1\r\nHost: h\r\nContent-Length: 10\r\n\r\n0123456789"
+    yield ("tls", [1, slow, len(slow) - 5, 11000 if quick else 31000], "long-lived")
